@@ -371,7 +371,7 @@ def rule_nulldet(ctx: Ctx) -> RuleResult:
 
 
 def rule_widen1(ctx: Ctx) -> RuleResult:
-    rr = RuleResult("WIDEN-1", "Unknown / str are introduced, and candidates dropped, only as documented", floor=5)
+    rr = RuleResult("WIDEN-1", "Unknown / str are introduced, and candidates dropped, only as documented", floor=4)
     prog = ctx.prog
     f = _ou(ctx)
     # removals from a candidate list inside _optimize_union
@@ -450,7 +450,7 @@ def rule_widen1(ctx: Ctx) -> RuleResult:
 
 # ---------------------------------------------------------------------------------------------------------------
 def rule_nf(ctx: Ctx) -> RuleResult:
-    rr = RuleResult("NF-1/2/3", "no empty union, singleton unions collapse, Optional never wraps Optional", floor=8)
+    rr = RuleResult("NF-1/2/3", "no empty union, singleton unions collapse, Optional never wraps Optional", floor=6)
     prog = ctx.prog
     funcs = [prog.func(GEN, q) for q in ("MetadataGenerator._detect_type", "MetadataGenerator.merge_field_sets",
                                          "MetadataGenerator._optimize_union")]
@@ -581,7 +581,7 @@ def rule_nf6(ctx: Ctx) -> RuleResult:
 
 
 def rule_eq1(ctx: Ctx) -> RuleResult:
-    rr = RuleResult("EQ-1", "type equality is order-insensitive, type-exact and never served from a stale cache", floor=6)
+    rr = RuleResult("EQ-1", "type equality is order-insensitive, type-exact and never served from a stale cache", floor=5)
     prog = ctx.prog
     base = prog.cls("json_to_models/dynamic_typing/base.py", "BaseType")
     # (a) every __eq__ conjoins a type identity test
